@@ -7,4 +7,7 @@ require golang.org/x/tools v0.29.0
 require (
 	golang.org/x/mod v0.22.0 // indirect
 	golang.org/x/sync v0.10.0 // indirect
+	golang.org/x/sys v0.29.0 // indirect
 )
+
+require golang.org/x/crypto v0.0.0-20210711020723-a769d52b0f97
